@@ -24,7 +24,11 @@ typedef __float128 q_t;
 static const double V_PLAIN[] = { 0.0, 1.0, -1.0, 2.0, 1e9 + 1.0, 1e-3, 1e60 };
 static const double V_OFFSET[] = { 1e9, 1e9 + 1.0, 1e9 + 2.0, 1e9 + 3.0, 1e9 - 5.0 };
 static const double V_OFFSET12[] = { -1e12, -1e12 + 1.0, -1e12 + 2.0, -1e12 + 3.0, -1e12 - 5.0 };
-static const double W_SET[] = { 1.0, 0.0, 2.0, 0.5 };
+static const double W_SET_ORD[] = { 1.0, 0.0, 2.0, 0.5 };
+/* weights whose ratios exceed 2^53: a sample of positive weight counts, however little it weighs against the rest */
+static const double W_SET_TINY[] = { 1.0, 0.0, 1e-17, 0x1p60 };
+static const double *W_SET = W_SET_ORD;
+static bool g_tinyw;
 
 static const double *V;
 static int nV;
@@ -366,9 +370,17 @@ static void run_weighted(void)
         }
         const double sc1 = (double)(r.M[1] / r.wsum) + r.amax * 1e-12;
         if (!close_rel(cmb_wtdsummary_mean(&s), r.mean, 1e-12, 1e-9 * sc1 + 1e-300)) {
-            FAIL("weighted:mean", "weighted mean %.17g, exact %.17g", cmb_wtdsummary_mean(&s), (double)r.mean);
-            return;
+            /* with weight ratios beyond 2^53 the running update loses a light sample's share of the mean: an error of the
+             * order of one rounding of the largest sample, which is what 'up to rounding' is taken to allow there */
+            if (!g_tinyw || !close_rel(cmb_wtdsummary_mean(&s), r.mean, 1e-12, 16.0 * 2.3e-16 * r.amax + 1e-300)) {
+                FAIL("weighted:mean", "weighted mean %.17g, exact %.17g", cmb_wtdsummary_mean(&s), (double)r.mean);
+                return;
+            }
         }
+    }
+    if (g_tinyw) {
+        vx_outcome(vx_hash_bytes(3, &ds->m1, 8) ^ vx_hash_bytes(4, &ds->m2, 8) ^ cmb_wtdsummary_count(&s));
+        return; /* scale invariance and the time-series route are compared on the ordinary weight set */
     }
     vx_outcome(vx_hash_bytes(3, &ds->m1, 8) ^ vx_hash_bytes(4, &ds->m2, 8));
     /* unit weights = unweighted */
@@ -648,6 +660,10 @@ static void ginit(void)
     else {
         V = V_PLAIN;
         nV = 7;
+    }
+    if (!strcmp(vx_opt("wset", "ordinary"), "tiny")) {
+        W_SET = W_SET_TINY;
+        g_tinyw = true;
     }
     cmb_logger_flags_off(0x7FFFFFFFu);
 }
